@@ -105,7 +105,7 @@ def park (s : Sch) (o : PassOut) (i : Nat) (res : Res) : Sch × PassOut × Did :
   | .state (.suspend y ts) =>
     if ts > s.th.now then ({ s with suspend := (ts, i) :: s.suspend }, o, .resumed i (.state (.suspend y ts)))
     else ({ s with ready := s.ready.push (prioOf s i) i }, o, .resumed i (.state (.suspend y ts)))
-  | .state .cancelled => (s, o, .resumed i (.state .cancelled))
+  | .state .cancelled => ({ s with cancel := s.cancel.filter (· != i) }, o, .resumed i (.state .cancelled))   -- a request recorded for the scheduler as well is served
   | .state (.complete r') => (s, { o with results := o.results ++ [(i, .ok r')] }, .resumed i (.state (.complete r')))
   | .state (.error m) => (s, { o with results := o.results ++ [(i, .err m)] }, .resumed i (.state (.error m)))
   | _ => (s, { o with failed := true }, .failed)
